@@ -13,7 +13,7 @@ LEVEL_TEXT = ("Held on the executions produced: for every input the strict run r
               "input; generated conforming documents recorded none. Exploration with an EOF-in-every-state family.")
 BUDGET_S = {"quick": 40, "thorough": 600}
 RULE = ("cases = (input, document|fragment+container) from soup, misnesting, an EOF family (every prefix of ~300 "
-        "tag/doctype/comment/reference spellings) and conforming documents (every tag explicit, and the same document with optional tags omitted wherever R-omit allows); each is parsed twice (strict, non-strict). "
+        "tag/doctype/comment/reference spellings) and conforming documents (every tag explicit; the same document in other conforming spellings: name case, quoting styles, '/>' on void and childless foreign elements, reference forms, doctype forms; and with optional tags omitted wherever R-omit allows); each is parsed twice (strict, non-strict). "
         "distinct_nontrivial = distinct cases whose non-strict run recorded at least one error, plus conforming documents.")
 ASSUMPTIONS = [
     "position 'inside the input' = 1 <= line <= number of lines of the newline-normalised input and 0 <= column <= length of that line",
@@ -189,6 +189,9 @@ def shard(ctx):
             doc = conform.gen_document(rng, 3)
             case = {"input": conform.explicit(doc), "frag": False, "conforming": True}
             judge(ctx, case, conforming=True)
+            vm, has_tail = conform.variant(rng, doc)
+            ctx.count("conforming_documents_in_variant_spelling")
+            judge(ctx, {"input": vm, "frag": False, "conforming": True, "variant": True}, conforming=True)
             om = omitted_variant(ctx, rng, doc)
             if om is not None and om != case["input"]:
                 case = {"input": om, "frag": False, "conforming": True, "omitted": True}
